@@ -297,13 +297,18 @@ class Ctx:
 
 
 def load_known():
-    path = os.path.join(VERIF, "known_findings.jsonl")
+    """known_findings.txt:  `known: property=<id> key=<key> <what>`  |  `fixed: property=<id> <commit> <what>`"""
+    path = os.path.join(VERIF, "known_findings.txt")
     out = []
     if os.path.exists(path):
         for line in open(path):
             line = line.strip()
-            if line and not line.startswith("#"):
-                out.append(json.loads(line))
+            m = re.match(r"known:\s+property=(\S+)\s+key=(\S+)\s+(.*)", line)
+            if m:
+                out.append({"status": "known", "property": m.group(1), "key": m.group(2), "what": m.group(3)})
+            m = re.match(r"fixed:\s+property=(\S+)\s+(\S+)\s+(.*)", line)
+            if m:
+                out.append({"status": "fixed", "property": m.group(1), "commit": m.group(2), "what": m.group(3)})
     return out
 
 
